@@ -29,6 +29,8 @@ enum Rec {
     /// not a journal record: the keyspace's memtable is flushed to a table before the image is taken, so recovery
     /// meets a journal whose records are partly covered by tables
     Flush(u8),
+    /// the same, and the flush rotates the journal first: the records written so far end up in a sealed journal
+    FlushSeal(u8),
 }
 
 fn pattern(len: usize, content: u8) -> Vec<u8> {
@@ -88,7 +90,7 @@ fn apply_model(m: &mut Content, r: &Rec) {
             }
         }
         Rec::Clear(ks) => m.get_mut(ksn(*ks)).unwrap().clear(),
-        Rec::Flush(_) => {}
+        Rec::Flush(_) | Rec::FlushSeal(_) => {}
     }
 }
 
@@ -129,10 +131,15 @@ fn write_history(recs: &[Rec], lz4: bool) -> Result<(std::path::PathBuf, Vec<Con
                 b.commit().map_err(|e| format!("commit: {e:?}"))?;
             }
             Rec::Clear(ks) => hs[*ks as usize].clear().map_err(|e| format!("clear: {e:?}"))?,
-            Rec::Flush(ks) => {
+            Rec::Flush(ks) | Rec::FlushSeal(ks) => {
                 hs[*ks as usize].rotate_memtable().map_err(|e| format!("rotate: {e:?}"))?;
                 let idx = db.verif_pending().iter().position(|m| m.contains("Flush")).ok_or("no flush queued")?;
-                db.verif_step(idx).map_err(|e| format!("flush: {e:?}"))?;
+                if matches!(r, Rec::FlushSeal(_)) {
+                    crate::world::FAKE_JOURNAL_POS.with(|c| c.set(Some(65_000_000)));
+                }
+                let res = db.verif_step(idx);
+                crate::world::FAKE_JOURNAL_POS.with(|c| c.set(None));
+                res.map_err(|e| format!("flush: {e:?}"))?;
             }
         }
         apply_model(&mut m, r);
@@ -196,6 +203,7 @@ fn show_rec(r: &Rec) -> String {
         Rec::Batch(items) => format!("batch [{}]", items.iter().map(|(a, b, c)| it(a, b, c)).collect::<Vec<_>>().join(" ")),
         Rec::Clear(ks) => format!("clear {}", ksn(*ks)),
         Rec::Flush(ks) => format!("flush {}", ksn(*ks)),
+        Rec::FlushSeal(ks) => format!("flush {} + journal rotation", ksn(*ks)),
     }
 }
 
@@ -249,6 +257,7 @@ fn roundtrip_cases() -> Vec<(String, Vec<Rec>)> {
         let pre = Rec::Single(1, key_of(kl, 4), Kind::Value(b"old".to_vec()));
         for f in 0..2u8 {
             v.push((format!("batch4-2ks k{kl} v{vl}, {} flushed before recovery", ksn(f)), vec![pre.clone(), batch.clone(), Rec::Flush(f)]));
+            v.push((format!("batch4-2ks k{kl} v{vl}, {} flushed with journal rotation (batch in a sealed journal), then a second batch", ksn(f)), vec![pre.clone(), batch.clone(), Rec::FlushSeal(f), Rec::Batch(vec![(1 - f, key_of(kl, 5), Kind::Value(val.clone())), (f, key_of(kl, 1), Kind::Tomb)])]));
             v.push((format!("batch4-2ks k{kl} v{vl}, {} flushed, then a second batch", ksn(f)), vec![pre.clone(), batch.clone(), Rec::Flush(f), Rec::Batch(vec![(1 - f, key_of(kl, 5), Kind::Value(val.clone())), (f, key_of(kl, 1), Kind::Tomb)])]));
         }
     }
